@@ -372,7 +372,9 @@ func c08Shapes(c *core.Ctx, acc, rej *int64) {
 				// the summary ends with what the LAST step reports, also when that is nothing
 				"last-step-reports-no-products/clean", "last-step-reports-no-products/parent-requires-a-product-of-an-earlier-step",
 				// the directory with the sublayout's links is reached through a symbolic link (as the root's link directory may be)
-				"sublayout-directory-is-a-symlink/clean", "sublayout-directory-is-a-symlink/forbidden-product"} {
+				"sublayout-directory-is-a-symlink/clean", "sublayout-directory-is-a-symlink/forbidden-product",
+				// a sublayout is verified like a root layout: with its own CAs (and what the caller passes), not with its parent's
+				"certificate-step-in-a-sublayout/clean", "certificate-step-in-a-sublayout/intermediate-only-in-the-parent-layout"} {
 				id := fmt.Sprintf("shape/%s/dsse=%v/rundir=%v", sc, dsse, runDir)
 				if !c.Want(id) {
 					continue
@@ -394,6 +396,47 @@ func c08Shapes(c *core.Ctx, acc, rej *int64) {
 						rules = [][]string{{"REQUIRE", "app.bin"}, {"ALLOW", "*"}}
 					}
 					layout = gen.NewLayout([]intoto.Step{gen.Step("delegated", 1, gen.KeyIDs(D), allow, rules)}, nil, gen.KeyMap(D))
+				case strings.HasPrefix(sc, "certificate-step-in-a-sublayout"):
+					root, e1 := gen.NewCA(gen.CertSpec{CN: "c08-root"}, nil)
+					var inter *gen.CA
+					var e2, e3 error
+					var leafPEM string
+					if e1 == nil {
+						inter, e2 = gen.NewCA(gen.CertSpec{CN: "c08-intermediate"}, root)
+					}
+					if e1 == nil && e2 == nil {
+						leafPEM, _, e3 = inter.Issue(gen.CertSpec{CN: "inner-functionary"}, E.Public)
+					}
+					if e1 != nil || e2 != nil || e3 != nil {
+						err = fmt.Errorf("cannot build the certificates")
+						break
+					}
+					cfn := gen.Functionary{KeyPair: E, CertPEM: leafPEM}
+					subDir := filepath.Join(linkDir, fmt.Sprintf(intoto.SublayoutLinkDirFormat, "delegated", D.Pub.KeyID))
+					mkdirs(subDir)
+					inner := gen.Step("inner", 1, nil, allow, allow)
+					inner.PubKeys = []string{}
+					cc := gen.WildcardConstraint()
+					cc.CommonName = "inner-functionary"
+					inner.CertificateConstraints = []intoto.CertificateConstraint{cc}
+					sub := gen.NewLayout([]intoto.Step{inner}, nil, map[string]intoto.Key{})
+					sub.RootCas = map[string]intoto.Key{root.Key.KeyID: root.Key}
+					if wantOK {
+						sub.IntermediateCas = map[string]intoto.Key{inter.Key.KeyID: inter.Key}
+					}
+					// certificate links use the legacy wrapper (an envelope cannot carry the certificate)
+					if _, _, err = gen.WriteLink(subDir, gen.NewLink("inner", gen.Artifacts(map[string]string{"input": "in\n"}), gen.Artifacts(map[string]string{"app.bin": "app\n"})), cfn.SigningKey(), false); err != nil {
+						break
+					}
+					var smd intoto.Metadata
+					if smd, err = gen.SignedMeta(sub, dsse, D.Priv); err != nil {
+						break
+					}
+					err = smd.Dump(filepath.Join(linkDir, gen.LinkName("delegated", D.Pub.KeyID)))
+					layout = gen.NewLayout([]intoto.Step{gen.Step("delegated", 1, gen.KeyIDs(D), allow, [][]string{{"REQUIRE", "app.bin"}, {"ALLOW", "*"}})}, nil, gen.KeyMap(D))
+					// the parent knows the intermediate (for functionaries of its own)
+					layout.RootCas = map[string]intoto.Key{root.Key.KeyID: root.Key}
+					layout.IntermediateCas = map[string]intoto.Key{inter.Key.KeyID: inter.Key}
 				case strings.HasPrefix(sc, "sublayout-directory-is-a-symlink"):
 					prods := map[string]string{"app.bin": "app\n"}
 					if !wantOK {
@@ -455,7 +498,7 @@ func c08Shapes(c *core.Ctx, acc, rej *int64) {
 				case wantOK && !obs.Accepted():
 					c.Violation("correct nesting rejected ("+sc+"): "+core.MsgClass(stripDirs(errStr(obs.Err), root)), id, detail)
 				case !wantOK && obs.Accepted():
-					c.Violation("the parent's rules were not evaluated against the summary of the step's own sublayout: accepted ("+sc+")", id, detail)
+					c.Violation("a nesting that has to be rejected is accepted ("+sc+")", id, detail)
 				case wantOK:
 					*acc++
 				default:
@@ -482,7 +525,7 @@ func init() {
 	core.Register(&core.Property{
 		ID:    "C08",
 		Level: "exploration",
-		Rule: "nestings of 2 and 3 (thorough: also 4) layouts built bottom-up (each layout: steps prep / sub / final, step sub delegated to a sublayout signed by the functionary's key, links in <step>.<keyid8>/, one inspection with a marker per level); one defect from {sublayout signed by a wrong key, expired ten minutes ago, rule violation, failing inspection command, violated inspection rule, threshold not met, missing link, link signed by an unauthorized key, tampered link} at every level x every step; parent rules of the 'true summary' flavour (must hold) and of the 'inner artifact' flavour (must fail); a sublayout offered by an unauthorized functionary (a stranger, the functionary of the earlier step, the functionary of the later step) next to honest evidence (must not be followed: no sublayout_enter, no marker); threshold-2 step with one plain link + one sublayout (agreeing / disagreeing / the plain link reporting no products at all); delegated steps named sub[12], s?b*, sub\\x (sound and with a missing link); threshold-1 step with an honest plain link plus a (sound / expired / incomplete) sublayout from a second authorized functionary; threshold-2 step with the same sublayout from two functionaries, a link missing in one directory only (repeated for map order); the innermost layout re-defining the key id of the root's prep functionary with other key material (its evidence counts, a link signed with the root's material does not); a sublayout whose summary reports its product under sha512 only while the parent's evidence uses sha256 (rejected at the parent); sublayouts with one step only, and one functionary carrying out two steps of a layout as sublayouts (clean / with a product the parent forbids in the one or in the other); a sublayout whose last step reports no products while an earlier one does (parent: DISALLOW * accepted, REQUIRE of the earlier step's product rejected); a sublayout whose link directory is reached through a symbolic link (clean / forbidden product); x 2 wrappers x 2 entry points. Oracle: ground truth by construction + markers + sublayout_enter events + trace automaton. " +
+		Rule: "nestings of 2 and 3 (thorough: also 4) layouts built bottom-up (each layout: steps prep / sub / final, step sub delegated to a sublayout signed by the functionary's key, links in <step>.<keyid8>/, one inspection with a marker per level); one defect from {sublayout signed by a wrong key, expired ten minutes ago, rule violation, failing inspection command, violated inspection rule, threshold not met, missing link, link signed by an unauthorized key, tampered link} at every level x every step; parent rules of the 'true summary' flavour (must hold) and of the 'inner artifact' flavour (must fail); a sublayout offered by an unauthorized functionary (a stranger, the functionary of the earlier step, the functionary of the later step) next to honest evidence (must not be followed: no sublayout_enter, no marker); threshold-2 step with one plain link + one sublayout (agreeing / disagreeing / the plain link reporting no products at all); delegated steps named sub[12], s?b*, sub\\x (sound and with a missing link); threshold-1 step with an honest plain link plus a (sound / expired / incomplete) sublayout from a second authorized functionary; threshold-2 step with the same sublayout from two functionaries, a link missing in one directory only (repeated for map order); the innermost layout re-defining the key id of the root's prep functionary with other key material (its evidence counts, a link signed with the root's material does not); a sublayout whose summary reports its product under sha512 only while the parent's evidence uses sha256 (rejected at the parent); sublayouts with one step only, and one functionary carrying out two steps of a layout as sublayouts (clean / with a product the parent forbids in the one or in the other); a sublayout whose last step reports no products while an earlier one does (parent: DISALLOW * accepted, REQUIRE of the earlier step's product rejected); a sublayout whose link directory is reached through a symbolic link (clean / forbidden product); a sublayout with a certificate-authorized step whose issuing intermediate CA is listed in the sublayout (accepted) / only in the parent layout (rejected); x 2 wrappers x 2 entry points. Oracle: ground truth by construction + markers + sublayout_enter events + trace automaton. " +
 			"non-trivial = at least one sublayout entered or deliberately not entered; distinct = (depth, defect, level, step, flavour, special, wrapper, entry point)",
 		Assumptions: []string{"sublayouts are signed with keys (the library looks the key up in the parent's keys section); certificate-authorized sublayout signers are not exercised"},
 		Workers:     func(string) int { return 16 },
